@@ -53,9 +53,10 @@ static std::vector<int> step_counts(const std::string &progs)
 }
 
 static const char *g_kind = "c"; // "e": the programs run on the shared event / semaphore
+bool c20_case_degraded(const char *kind, const std::string &progs); // harness/C20.cpp: a point the programs need is absent
 static void emit_case(const std::string &progs, const std::string &init, const std::string &sched)
 {
-    printf("%s %s %s %s\n", g_kind, progs.c_str(), init.empty() ? "-" : init.c_str(), sched.empty() ? "-" : sched.c_str());
+    printf("%s%s %s %s %s\n", c20_case_degraded(g_kind, progs) ? "x " : "", g_kind, progs.c_str(), init.empty() ? "-" : init.c_str(), sched.empty() ? "-" : sched.c_str());
 }
 
 // all interleavings (multiset permutations) of the threads' points
